@@ -41,6 +41,9 @@ OPS.update({"STRLEN": _fn(["s"], "i", "strlen({0})"), "CAT": _fn({2: ["s", "s"],
 for p, t in (("", "i"), ("U", "u"), ("F", "f"), ("S", "s")):
     for n, s in (("EQ", "="), ("NE", "!="), ("LT", "<"), ("LE", "<="), ("GT", ">"), ("GE", ">=")):
         OPS[p + n] = _cmp([t, t], "{0} %s {1}" % s)
+# `x = y` between two plain variables is unification (one variable, bit identity: -0.0 and 0.0 differ, a NaN equals itself);
+# the FEQ constraint is what souffle evaluates when a side is an expression, hence the identity conversion on the left
+OPS["FEQ"] = _cmp(["f", "f"], "to_float({0}) = {1}")
 OPS.update({"CONTAINS": _cmp(["s", "s"], "contains({0}, {1})"), "NOT_CONTAINS": _cmp(["s", "s"], "!contains({0}, {1})"),
             "MATCH": _cmp(["s", "s"], "match({0}, {1})"), "NOT_MATCH": _cmp(["s", "s"], "!match({0}, {1})")})
 OPS.update({"RANGE": _gen("i"), "URANGE": _gen("u"), "FRANGE": _gen("f")})
@@ -52,7 +55,7 @@ NOT_SPECIFIED = {"ORD": "exposes the interning order / raw bits of a value",
 FAMILY = {"i": "signed", "u": "unsigned", "f": "float", "s": "symbol"}
 def family(op, arity):
     """Compilation unit of an operator: by the type of its first argument (conversions from text live with the symbols)."""
-    return FAMILY[argtypes(op, arity)[0]]
+    return "frange" if op == "FRANGE" else FAMILY[argtypes(op, arity)[0]]
 
 def kind(op): return OPS[op][0]
 def argtypes(op, arity):
